@@ -238,6 +238,16 @@ class Program(object):
         for m in self.modules.values():
             self._index_module(m)
 
+    def add_file(self, name, path):
+        """load an extra module (reference specifications under /verif/sa/specs)"""
+        with open(path, encoding="utf-8") as f:
+            src = f.read()
+        tree = ast.parse(src, filename=path)
+        m = Module(name, path, src, tree, False)
+        self.modules[name] = m
+        self._index_module(m)
+        return m
+
     def _pkg_of(self, m):
         return m.name if m.is_pkg else m.name.rsplit(".", 1)[0]
 
